@@ -61,7 +61,10 @@ def run_one(m):
         else:
             out.append((prop, False, f"not reported (new violations: {[(o.rule, o.construct) for o in rep.new][:4]})"))
     ok = all(x[1] for x in out)
-    return m["id"], "killed" if ok else "SURVIVED", "; ".join(f"{p}: {msg}" for p, _ok, msg in out)
+    status = "killed" if ok else "SURVIVED"
+    if ok and m.get("expect") == "analysis-error":
+        status = "undecided"        # listed as beyond the rules: must end in "cannot decide", never in a pass
+    return m["id"], status, "; ".join(f"{p}: {msg}" for p, _ok, msg in out)
 
 
 def catalogue():
@@ -82,7 +85,8 @@ def run(prop: str | None = None, jobs: int = 16, verbose: bool = False):
     killed = [r for r in results if r[1] == "killed"]
     skipped = [r for r in results if r[1] == "skipped"]
     bad = [r for r in results if r[1] in ("SURVIVED", "error")]
-    lines = [f"self-test {prop or 'ALL'}: {len(killed)} mutants reported, {len(skipped)} skipped, {len(bad)} missed"]
+    und = [r for r in results if r[1] == "undecided"]
+    lines = [f"self-test {prop or 'ALL'}: {len(killed)} mutants reported, {len(und)} not decided as listed, {len(skipped)} skipped, {len(bad)} missed"]
     if verbose:
         for r in results:
             lines.append(f"  {r[1]:9s} {r[0]}: {r[2]}")
